@@ -21,7 +21,8 @@ Clash(m, n, b) == UidOf(b) # 0 /\ \E x \in DOMAIN m \ {n} : UidOf(m[x]) = UidOf(
 
 \* op = [t |-> "put"|"del", n, b, cond]   cond: 0 = unconditional, else required content
 SeqApply(m, o) ==
-    IF o.t = "del" THEN
+    IF o.t = "read" THEN [m |-> m, r |-> "ok"]
+    ELSE IF o.t = "del" THEN
         IF o.n \notin DOMAIN m THEN [m |-> m, r |-> "NoSuchItem"]
         ELSE IF o.cond # 0 /\ m[o.n] # o.cond THEN [m |-> m, r |-> "InvalidETag"]
         ELSE [m |-> Drop(m, o.n), r |-> "ok"]
@@ -40,6 +41,15 @@ ExplainsFrom(m, todo, Ops, Res, Before(_, _), final) ==
             /\ LET s == SeqApply(m, Ops[id]) IN
                /\ s.r = Res[id]
                /\ ExplainsFrom(s.m, todo \ {id}, Ops, Res, Before, final)
+
+\* the set of states some admissible order of `todo' ends in, reproducing the results
+RECURSIVE EndStates(_, _, _, _, _)
+EndStates(m, todo, Ops, Before(_, _), Res) ==
+    IF todo = {} THEN {m}
+    ELSE UNION { LET s == SeqApply(m, Ops[id]) IN
+                 IF (\E other \in todo : Before(other, id)) \/ s.r # Res[id] THEN {}
+                 ELSE EndStates(s.m, todo \ {id}, Ops, Before, Res)
+                 : id \in todo }
 
 UidUniqueIn(m) == \A x, y \in DOMAIN m : (x # y /\ UidOf(m[x]) # 0) => UidOf(m[x]) # UidOf(m[y])
 =============================================================================
